@@ -107,6 +107,17 @@ class Source:
                 return o, match_close(self.masked, o)
         raise ExtractError('impl block /%s/ not found in %s' % (header_re, self.path))
 
+    def impl_block_containing(self, header_re, fn_name):
+        """the impl block (several may share one header) that defines fn_name"""
+        for m in re.finditer(r'(?m)^(?:unsafe )?impl\b[^{;]*\{', self.masked):
+            hdr = self.masked[m.start():m.end() - 1]
+            if re.search(header_re, ' '.join(hdr.split())):
+                o = m.end() - 1
+                c = match_close(self.masked, o)
+                if re.search(r'\bfn ' + re.escape(fn_name) + r'\b', self.masked[o:c]):
+                    return o, c
+        raise ExtractError('no impl block /%s/ defines fn %s in %s' % (header_re, fn_name, self.path))
+
     def find_fn(self, name, within=None):
         """returns (sig_start, body_open, body_close) of `fn name` inside the index range `within`."""
         lo, hi = within if within else (0, len(self.masked))
@@ -574,6 +585,12 @@ class Rewriter:
         b = self.sub('R1:phantom', r'\b\w+\s*:\s*PhantomData\s*,?', '', b)
         b = self.method_to_fn(b, 'count', 'raw_iter_count', 'R13:iter-count', extra_first='w')
         b = self.sub('R8:size_of', r'\bmem::size_of::<\s*ChunkFooter\s*>\(\)', 'FOOTER_SIZE', b)
+        b = self.sub('R8:size_of-usize', r'\bmem::size_of::<\s*usize\s*>\(\)', '8usize', b)
+        b = self.sub('R8:size_of-T', r'\bmem::size_of::<\s*T\s*>\(\)', 'ELEM_SIZE()', b)
+        b = self.sub('R8:align_of-T', r'\bmem::align_of::<\s*T\s*>\(\)', 'ELEM_ALIGN()', b)
+        b = self.map_calls(b, r'\bLayout::array::<\s*T\s*>', lambda m, a: 'layout_array_T(%s)' % a[0], 'R8:layout-array')
+        b = self.sub('R8:isize-max', r'::core::isize::MAX', 'isize::MAX', b)
+        b = self.map_calls(b, r'\bcmp::max', lambda m, a: 'umax_exec(%s, %s)' % (a[0], a[1]), 'R8:cmp-max')
         # R13: std Option/Result combinators with closure arguments are replaced by their definition (a `match`)
         b = self.desugar_combinators(b)
         # R12: thread the world parameter through calls of functions that take it
